@@ -123,6 +123,10 @@ func (mc *Metacontroller) Reconcile(ctx context.Context, request reconcile.Reque
 		return reconcile.Result{}, err
 	}
 
+	// A changed spec always retires the running controller, also when the new
+	// spec cannot be started (yet): the checks below may return early.
+	mc.stopIfSpecChanged(&cc)
+
 	groupVersion, err := schema.ParseGroupVersion(cc.Spec.ParentResource.APIVersion)
 	if err != nil {
 		return reconcile.Result{}, err
@@ -155,17 +159,24 @@ func (mc *Metacontroller) Reconcile(ctx context.Context, request reconcile.Reque
 	return reconcile.Result{}, reconcileErr
 }
 
+// stopIfSpecChanged stops and removes the controller running for cc if it was
+// started with a different spec.
+func (mc *Metacontroller) stopIfSpecChanged(cc *v1alpha1.CompositeController) {
+	pc, ok := mc.parentControllers[cc.Name]
+	if !ok || apiequality.Semantic.DeepEqual(cc.Spec, pc.cc.Spec) {
+		return
+	}
+	pc.Stop()
+	mc.eventRecorder.Eventf(cc, v1.EventTypeNormal, events.ReasonStopped, "Stopped controller: %s", cc.Name)
+	delete(mc.parentControllers, cc.Name)
+}
+
 func (mc *Metacontroller) reconcileCompositeController(cc *v1alpha1.CompositeController) error {
-	if pc, ok := mc.parentControllers[cc.Name]; ok {
-		// The controller was already started.
-		if apiequality.Semantic.DeepEqual(cc.Spec, pc.cc.Spec) {
-			// Nothing has changed.
-			return nil
-		}
-		// Stop and remove the controller so it can be recreated.
-		pc.Stop()
-		mc.eventRecorder.Eventf(cc, v1.EventTypeNormal, events.ReasonStopped, "Stopped controller: %s", cc.Name)
-		delete(mc.parentControllers, cc.Name)
+	// Stop and remove a controller started with another spec so it can be recreated.
+	mc.stopIfSpecChanged(cc)
+	if _, ok := mc.parentControllers[cc.Name]; ok {
+		// The controller was already started and nothing has changed.
+		return nil
 	}
 
 	pc, err := newParentController(
